@@ -14,12 +14,20 @@ from .kernel import mk_bytes
 from .simfs import apply_faults
 
 
+class BaseNotWritable(Exception):
+    """the real writer / encoder raised on the well-formed base object: not this property's business
+    (C06 / C01 territory); the scenario is skipped and counted"""
+
+
 def clean_message_bytes(scn):
     m = sut.load()
     msg = msgcodec.msg_from_json(scn["message"])
     cfg = msgcodec.cfg_from_json(scn.get("config", "packaged"))
-    return m["iso8583"].dumps(copy.deepcopy(msg), encoding=scn.get("encoding"), iso_config=cfg,
-                              hex_bitmap=scn.get("hex_bitmap", False))
+    try:
+        return m["iso8583"].dumps(copy.deepcopy(msg), encoding=scn.get("encoding"), iso_config=cfg,
+                                  hex_bitmap=scn.get("hex_bitmap", False))
+    except Exception as ex:
+        raise BaseNotWritable(f"{type(ex).__name__}: {ex}")
 
 
 def message_bytes(scn):
@@ -64,7 +72,7 @@ def _clean_file(scn):
             "messages": scn["messages"], "knobs": scn.get("knobs", {})}
     wr = pipeline.write_phase(wscn)
     if wr.error or wr.fin_errors:
-        raise RuntimeError(f"clean writer failed: {wr.error or wr.fin_errors}")
+        raise BaseNotWritable(str(wr.error or wr.fin_errors))
     recs, tail = refmodel.vbs_parse(wr.image, 10 ** 9)
     return wr.image, recs
 
